@@ -15,7 +15,8 @@ Payload == S2B("<a href=\"x\">&'b'</a>;/*{}%+ \\")
 Ctx == ("x" :> Str(Payload)) @@ ("sh" :> Safe(Str(Payload), {"html"})) @@ ("sj" :> Safe(Str(Payload), {"js"}))
        @@ ("n" :> IntV(5)) @@ ("e" :> Str(<<>>))
 
-Names == {"a.html", "a.js", "a.css", "a.txt", "a", "a.foo", "a.html.twig", "a.js.twig", "d.js/a", "a.url", "a.html_attr", "a.HTML", "inline"}
+Names == {"a.html", "a.js", "a.css", "a.txt", "a", "a.foo", "a.html.twig", "a.js.twig", "d.js/a", "a.url", "a.html_attr", "a.HTML", "inline",
+          "a.txt.html", "a.min.js", "a.js.html", "a.html.txt.twig", "v1.2/a.css", "a.b.c.css.twig", ".js", "a."}
 Forms == {"plain", "escape", "escape-js", "escape-attr", "escape-css", "escape-url", "raw", "safe-html", "safe-js", "filtered",
           "concat", "literal", "number", "empty", "escape-raw", "tern"}
 Places == {"top", "if", "else", "for", "block", "inherited", "included", "embedded", "override", "capture", "section", "macro", "forelse"}
@@ -60,10 +61,10 @@ Seg(form, ct) ==
 
 (* content type required for a template name (the statement of C12, independent of Exec!CtOfName) *)
 RequiredCt(name) ==
-  CASE name \in {"a.html", "a.html.twig"} -> "html"
-    [] name \in {"a.js", "a.js.twig"} -> "js"
-    [] name = "a.css" -> "css" [] name = "a.url" -> "url" [] name = "a.html_attr" -> "html_attr"
-    [] name = "a.txt" -> "txt"
+  CASE name \in {"a.html", "a.html.twig", "a.txt.html", "a.js.html"} -> "html"
+    [] name \in {"a.js", "a.js.twig", "a.min.js", ".js"} -> "js"
+    [] name \in {"a.css", "v1.2/a.css", "a.b.c.css.twig"} -> "css" [] name = "a.url" -> "url" [] name = "a.html_attr" -> "html_attr"
+    [] name \in {"a.txt", "a.html.txt.twig"} -> "txt"
     [] OTHER -> "html"            \* no extension, unknown extension, upper-case extension, dot in a directory, inline
 
 (* templates: the print sits in a template called `name`; other templates are html *)
